@@ -38,14 +38,33 @@ def recs(ms):
     return [(tuple(m.parts), canon(m.obj)) for m in ms]
 
 
-def fold(operand_results, ops):
+def fold(operand_results, ops, eq=strict_eq):
     cur = list(operand_results[0])
     for op, res in zip(ops, operand_results[1:]):
         if op == "|":
             cur = cur + list(res)
         else:
-            cur = [x for x in cur if any(strict_eq(x[2], y[2]) for y in res)]
+            cur = [x for x in cur if any(eq(x[2], y[2]) for y in res)]
     return cur
+
+
+def _python_eq(a, b):
+    try:
+        return bool(a == b)
+    except Exception:  # noqa: BLE001
+        return False
+
+
+def fold_where_specified(operand_results, ops, reference, ctx):
+    """The fold under JSON equality - unless membership of some value hangs on a boolean / number look-alike
+    (`1.0` against `true`, at any depth), which the statement leaves open (DESIGN: "membership there is unspecified"):
+    then whatever the compiled query's lazy entry point decides is the reference every other entry point must match."""
+    strict = fold(operand_results, ops)
+    loose = fold(operand_results, ops, _python_eq)
+    if [(p, c) for p, c, _ in strict] == [(p, c) for p, c, _ in loose]:
+        return strict
+    ctx.count("membership_hangs_on_a_boolean_number_lookalike")
+    return reference()
 
 
 LOOKALIKES = [{"w": 0, "z": {"x": [2, {"p": 4, "q": 3}], "y": 1}}, {}, [], {"a": 1}, [["a", 1]], "x", ["x"], [[]], {"a": []}, {"a": {}}, 7, "7", [7], None, [None], {"b": 2, "a": 1}, [["a", 1], ["b", 2]], "", [""], {"0": "x"}, [{"a": 1}], ["a", 1]]
@@ -249,7 +268,7 @@ def run(spec, ctx):
         if bad:
             ctx.count("operand_raised")
             continue
-        want_full = fold(operand, ops)
+        want_full = fold_where_specified(operand, ops, lambda: [(tuple(m.parts), canon(m.obj), m.obj) for m in jsonpath.compile(text).finditer(doc, **kw)], ctx)
         want = [(p, c) for p, c, _ in want_full]
         want_vals = [c for _, c, _ in want_full]
         ctx.case(h(text, canon(doc)), bool(want))
@@ -448,7 +467,7 @@ def replay(case, ctx, tag="replay"):
     import random
 
     operand = [[(tuple(m.parts), canon(m.obj), m.obj) for m in jsonpath.compile(Renderer(random.Random(0), plain=True).top(q)).finditer(doc, **kw)] for q in asts]
-    want_full = fold(operand, ops)
+    want_full = fold_where_specified(operand, ops, lambda: [(tuple(m.parts), canon(m.obj), m.obj) for m in jsonpath.compile(text).finditer(doc, **kw)], ctx)
     want = [(p, c) for p, c, _ in want_full]
     ctx.evaluation()
     p = jsonpath.compile(text)
